@@ -19,6 +19,15 @@ package bint
 //@   loop#0 invariant 0 <= i && i <= len(b) && n == be(b, i)
 //@   loop#0 decreases len(b) - i
 
+// The fixed-width readers are truncations of Decode (the low 16/32/64 bits of
+// the big-endian value of the whole input).
+//@ func Uint16 props=C17
+//@   ensures result == uint16(be(b, len(b)))
+//@ func Uint32 props=C17
+//@   ensures result == uint32(be(b, len(b)))
+//@ func Uint64 props=C17
+//@   ensures result == be(b, len(b))
+
 //@ func size props=C17
 //@   ensures int(s) == (n == 0 ? 1 : nbytes(n))
 //@   ensures 1 <= int(s) && int(s) <= 8
